@@ -92,8 +92,18 @@ def normEntry (limit : Nat) (r : RawEntry) : Option PEntry :=
 
 def normLayer (limit : Nat) (l : List RawEntry) : List PEntry := l.filterMap (normEntry limit)
 
+/-- the node an entry leaves in the path tree: its own when it is accepted; a WHITEOUT of its path when it is rejected for its
+size or as a link out of the root (fix <P3>: the entry cannot be exposed, but it still replaces what older layers have there;
+the kind of a whiteout node is immaterial — `.link` keeps "no file node of the limit's size or more" literal); none otherwise -/
+def PEntry.node? (pe : PEntry) : Option Entry :=
+  match pe.act with
+  | .accept => some pe.e
+  | .big => some ⟨pe.e.p, .link, true, pe.e.mode, 0, 0, []⟩
+  | .badlink => some ⟨pe.e.p, .link, true, pe.e.mode, 0, 0, []⟩
+  | _ => none
+
 /-- the entries that create nodes -/
-def effective (l : List PEntry) : Layer := l.filterMap fun pe => if pe.act = .accept then some pe.e else none
+def effective (l : List PEntry) : Layer := l.filterMap PEntry.node?
 
 /-! ### the layer's extraction directory -/
 
@@ -151,9 +161,9 @@ def processEntry (limit i : Nat) (st : LoadSt) (pe : PEntry) : Option LoadSt :=
   else
   match pe.act with
   | .fatal => none
-  | .badlink => some st
+  | .badlink => some { st with chains := fillEntry st.chains i ⟨pe.e.p, .link, true, pe.e.mode, 0, 0, []⟩ }
   | .other => some st
-  | .big => (diskStep limit st.disk pe).map fun d => { st with disk := d }
+  | .big => (diskStep limit st.disk pe).map fun d => { chains := fillEntry st.chains i ⟨pe.e.p, .link, true, pe.e.mode, 0, 0, []⟩, disk := d }
   | .accept => (diskStep limit st.disk pe).map fun d => { chains := fillEntry st.chains i pe.e, disk := d }
 
 def processLayer (limit i : Nat) (chains : List Tree) (l : List PEntry) : Option (List Tree × Disk) :=
